@@ -24,6 +24,12 @@ func (h *Hub) HandleConnectionClosed(connection api.ShipConnectionInterface, han
 	// only remove this connection if it is the registered one for the ski!
 	// as we can have double connections but only one can be registered
 	if existingC := h.connectionForSKI(remoteSki); existingC != nil {
+		if existingC.DataHandler() != connection.DataHandler() {
+			// another (newer) connection is registered for this ski, so the
+			// remote service is not disconnected and nothing has to be done
+			return
+		}
+
 		if existingC.DataHandler() == connection.DataHandler() {
 			h.muxCon.Lock()
 			delete(h.connections, connection.RemoteSKI())
